@@ -238,8 +238,8 @@ def main():
 
 
 MANIFEST = {
-    "claimed": False,
-    "text": "",
-    "note": "",
-    "design_ref": "DESIGN.md 3 C13",
+    "claimed": True,
+    "text": 'Theorems (Coq, closed under the global context, for every cookie type and every history of timers, usable answers carrying any number of cookies of any length, deny answers, ignored datagrams and direct stores): the ring buffer refines a bounded FIFO (C13_store_keeps_newest: store = append and keep the newest 8; C13_get_oldest; C13_gap); the sequence of cookies put into requests is a subsequence of the sequence of cookies that arrived, i.e. each is sent at most once and in arrival order (C13_once_fifo, C13_tags_increase, C13_once); at most 8 are held and they are a suffix of everything stored (C13_bounded, C13_step); every request carries the oldest cookie held and asks for exactly min(8 - held after taking it, floor(724/max(len,1)) capped at 255) new cookies, and a source without cookie or with a cookie longer than 724 bytes is reset without sending (C13_asks_for_missing).',
+    "note": 'Trusted: Coq kernel + vm_compute; hand-written models coq/Model/CookieStash.v and coq/Model/SrcCore.v (cookie/reach part of NtpSource::handle_timer, handle_incoming, process_message), tied to the real NtpSource and CookieStash by an event-by-event correspondence (action, cookie identity and length, placeholder count and length, unanswered_polls, nts_cookies) on histories with hand-built encrypted answers; the classification of a datagram as usable / deny / ignored is an input of the model (C07-C09 own the decision logic; the harness builds datagrams of each class); placeholder length = cookie length is observed, not modelled; the 5 s answer window is not exercised; NTS sources exist only in protocol states V4 and V5 (key exchange result).',
+    "design_ref": 'DESIGN.md 3 C13',
 }
